@@ -165,7 +165,8 @@ func (f *rtpFeed) Read(b []byte, a interceptor.Attributes) (int, interceptor.Att
 	}
 	n, err := f.read(b)
 	if err != nil {
-		return 0, nil, err
+		// the bytes delivered by a failing read stay visible to the chain (n > 0 together with the error)
+		return n, nil, err
 	}
 	return n, a, nil
 }
@@ -187,7 +188,8 @@ type rtcpFeedT struct{ feed }
 func (f *rtcpFeedT) Read(b []byte, a interceptor.Attributes) (int, interceptor.Attributes, error) {
 	n, err := f.read(b)
 	if err != nil {
-		return 0, nil, err
+		// the bytes delivered by a failing read stay visible to the chain (n > 0 together with the error)
+		return n, nil, err
 	}
 	return n, a, nil
 }
